@@ -79,27 +79,125 @@ Proof.
   subst. reflexivity.
 Qed.
 
-Lemma gw_find_out_some : forall outs a j, gw_find_out outs a = Some j -> nth_error outs j = Some a.
+Lemma gw_ref_eqb_refl : forall a, gw_ref_eqb a a = true.
 Proof.
-  induction outs as [|o t IH]; simpl; intros a j H; try discriminate.
-  destruct (gw_ref_eqb o a) eqn:E.
-  - inversion H; subst. simpl. f_equal. apply gw_ref_eqb_eq. exact E.
-  - destruct (gw_find_out t a) as [j'|] eqn:F; inversion H; subst. simpl. apply IH. exact F.
+  intros [f l]. unfold gw_ref_eqb. simpl. apply andb_true_iff. split.
+  - destruct f; reflexivity.
+  - destruct l as [x|]; simpl; auto. apply Nat.eqb_refl.
 Qed.
 
 Lemma gw_tspecs_from_nth : forall outs calls bind i t,
   nth_error (gw_tspecs_from outs calls bind) i = Some t ->
-  nth_error calls i = Some (fst t) /\ (forall j, snd t = Some j -> nth_error outs j = Some (fst t)).
+  nth_error calls i = Some (fst t) /\
+  (snd t = None -> nth_error (gw_eff_calls outs calls bind) i = Some (fst t)) /\
+  (forall j, snd t = Some j ->
+     exists o, nth_error outs j = Some o /\ nth_error (gw_eff_calls outs calls bind) i = Some o).
 Proof.
   induction calls as [|a calls IH]; simpl; intros bind i t H; destruct i; simpl in *; try discriminate.
-  - inversion H; subst; simpl. split; auto. intros j Hj.
-    destruct (hd false bind); [apply gw_find_out_some; exact Hj | discriminate].
+  - inversion H; subst; simpl. split; [reflexivity|]. unfold gw_bound, gw_eff_call.
+    destruct (hd None bind) as [j0|]; [destruct (nth_error outs j0) as [o|] eqn:E|].
+    + split; [discriminate|]. intros j Hj. inversion Hj; subst. exists o. split; [exact E | reflexivity].
+    + split; [reflexivity | discriminate].
+    + split; [reflexivity | discriminate].
   - eapply IH. exact H.
 Qed.
 
 Lemma gw_tspecs_from_length : forall outs calls bind,
   length (gw_tspecs_from outs calls bind) = length calls.
 Proof. induction calls; simpl; intros; auto. Qed.
+
+Lemma gw_eff_calls_length : forall outs calls bind,
+  length (gw_eff_calls outs calls bind) = length calls.
+Proof. induction calls; simpl; intros; auto. Qed.
+
+(* ------------------------------------------------------------------ the predicate as bound *)
+Lemma gw_calls_subst_length : forall p l, length (gw_calls (gw_subst p l)) = length (gw_calls p).
+Proof.
+  induction p as [a c lit | p1 IH1 p2 IH2 | p1 IH1 p2 IH2]; simpl; intros l; auto;
+    rewrite !app_length, IH1, IH2; reflexivity.
+Qed.
+
+Lemma gw_rewrite_subst : forall p l n, gw_rewrite (gw_subst p l) n = gw_rewrite p n.
+Proof.
+  induction p as [a c lit | p1 IH1 p2 IH2 | p1 IH1 p2 IH2]; simpl; intros l n; auto;
+    rewrite IH1, IH2, gw_calls_subst_length; reflexivity.
+Qed.
+
+Lemma gw_firstn_skipn_firstn : forall (A : Type) n m (l : list A),
+  firstn n l ++ firstn m (skipn n l) = firstn (n + m) l.
+Proof.
+  induction n as [|n IH]; intros m l; simpl; auto.
+  destruct l as [|x t]; simpl.
+  - rewrite firstn_nil. reflexivity.
+  - rewrite IH. reflexivity.
+Qed.
+
+Lemma gw_calls_subst_firstn : forall p l, (length (gw_calls p) <= length l)%nat ->
+  gw_calls (gw_subst p l) = firstn (length (gw_calls p)) l.
+Proof.
+  induction p as [a c lit | p1 IH1 p2 IH2 | p1 IH1 p2 IH2]; simpl; intros l H.
+  - destruct l as [|x t]; simpl in *; [lia | reflexivity].
+  - rewrite app_length in *. rewrite IH1 by lia. rewrite IH2 by (rewrite skipn_length; lia).
+    apply gw_firstn_skipn_firstn.
+  - rewrite app_length in *. rewrite IH1 by lia. rewrite IH2 by (rewrite skipn_length; lia).
+    apply gw_firstn_skipn_firstn.
+Qed.
+
+Lemma gw_calls_subst : forall p l, length l = length (gw_calls p) -> gw_calls (gw_subst p l) = l.
+Proof.
+  intros p l H. rewrite gw_calls_subst_firstn by lia. rewrite <- H. apply firstn_all.
+Qed.
+
+Lemma gw_skipn_app_length : forall (A : Type) (a b : list A), skipn (length a) (a ++ b) = b.
+Proof. induction a as [|x t IH]; simpl; intros; auto. Qed.
+
+Lemma gw_subst_same_app : forall p l, gw_subst p (gw_calls p ++ l) = p.
+Proof.
+  induction p as [a c lit | p1 IH1 p2 IH2 | p1 IH1 p2 IH2]; simpl; intros l; auto.
+  - rewrite <- app_assoc. rewrite IH1. rewrite gw_skipn_app_length. rewrite IH2. reflexivity.
+  - rewrite <- app_assoc. rewrite IH1. rewrite gw_skipn_app_length. rewrite IH2. reflexivity.
+Qed.
+
+Lemma gw_subst_same : forall p, gw_subst p (gw_calls p) = p.
+Proof. intro p. pose proof (gw_subst_same_app p []) as H. rewrite app_nil_r in H. exact H. Qed.
+
+Lemma gw_calls_eff_pred : forall c,
+  gw_calls (gw_eff_pred c) = gw_eff_calls (gc_outs c) (gw_calls (gc_pred c)) (gc_bind c).
+Proof. intro c. unfold gw_eff_pred. apply gw_calls_subst. apply gw_eff_calls_length. Qed.
+
+(* a faithful binding leaves the predicate as written *)
+Lemma gw_eff_calls_ok : forall outs calls bind, gw_bind_okb outs calls bind = true ->
+  gw_eff_calls outs calls bind = calls.
+Proof.
+  induction calls as [|a t IH]; simpl; intros bind H; auto.
+  apply andb_true_iff in H. destruct H as [H1 H2]. rewrite (IH _ H2). f_equal.
+  unfold gw_eff_call. destruct (hd None bind) as [j|]; auto.
+  destruct (nth_error outs j) as [o|]; auto. apply gw_ref_eqb_eq. exact H1.
+Qed.
+
+Lemma gw_eff_pred_ok : forall c, gw_bind_ok c -> gw_eff_pred c = gc_pred c.
+Proof.
+  intros c H. unfold gw_eff_pred. rewrite (gw_eff_calls_ok _ _ _ H). apply gw_subst_same.
+Qed.
+
+Lemma gw_eff_ok : forall c, gw_bind_ok c -> gw_eff c = c.
+Proof. intros c H. unfold gw_eff. rewrite (gw_eff_pred_ok c H). destruct c; reflexivity. Qed.
+
+(* the predicate as bound is bound faithfully *)
+Lemma gw_bind_okb_eff_calls : forall outs calls bind,
+  gw_bind_okb outs (gw_eff_calls outs calls bind) bind = true.
+Proof.
+  induction calls as [|a t IH]; simpl; intros bind; auto.
+  rewrite IH, andb_true_r. unfold gw_eff_call.
+  destruct (hd None bind) as [j|]; auto.
+  destruct (nth_error outs j) as [o|]; auto. apply gw_ref_eqb_refl.
+Qed.
+
+Lemma gw_eff_bind_ok : forall c, gw_bind_ok (gw_eff c).
+Proof.
+  intro c. unfold gw_bind_ok. cbn [gw_eff gc_outs gc_pred gc_bind].
+  rewrite gw_calls_eff_pred. apply gw_bind_okb_eff_calls.
+Qed.
 
 (* ------------------------------------------------------------------ the state of a group is
    determined by the rows fed into it *)
@@ -158,19 +256,25 @@ Qed.
 Lemma gw_fold_feed_canon : forall c seg, fold_left (gw_feed c) seg (gw_newstate c) = gw_canon c seg.
 Proof. intros c seg. rewrite <- gw_canon_nil. apply gw_fold_feed_canon_from. Qed.
 
-(* the value of placeholder i = the aggregate of the i-th call over the rows fed *)
+(* the value of placeholder i = over the rows fed, the aggregate the i-th call is bound to (the call's own
+   aggregate when it is trigger-only) *)
 Lemma gw_env_canon : forall c seg i,
   gw_env c (gw_canon c seg) i =
-  match nth_error (gw_calls (gc_pred c)) i with Some a => gw_agg_of a seg | None => None end.
+  match nth_error (gw_eff_calls (gc_outs c) (gw_calls (gc_pred c)) (gc_bind c)) i with
+  | Some a => gw_agg_of a seg
+  | None => None
+  end.
 Proof.
   intros c seg i. unfold gw_env.
   destruct (nth_error (gw_tspecs c) i) as [t|] eqn:E.
-  - destruct (gw_tspecs_from_nth _ _ _ _ _ E) as [H1 H2]. rewrite H1.
+  - destruct (gw_tspecs_from_nth _ _ _ _ _ E) as [H1 [H2 H3]].
     destruct t as [a [j|]]; simpl in *.
-    + specialize (H2 j eq_refl).
-      rewrite (map_nth_error (fun a0 => gw_st a0 seg) _ _ H2). reflexivity.
-    + rewrite (map_nth_error (gw_trig_of (fun a0 => gw_st a0 seg)) _ _ E). reflexivity.
+    + destruct (H3 j eq_refl) as [o [Ho He]]. rewrite He.
+      rewrite (map_nth_error (fun a0 => gw_st a0 seg) _ _ Ho). reflexivity.
+    + rewrite (H2 eq_refl).
+      rewrite (map_nth_error (gw_trig_of (fun a0 => gw_st a0 seg)) _ _ E). reflexivity.
   - apply nth_error_None in E. unfold gw_tspecs in E. rewrite gw_tspecs_from_length in E.
+    rewrite <- (gw_eff_calls_length (gc_outs c) _ (gc_bind c)) in E.
     apply nth_error_None in E. rewrite E. reflexivity.
 Qed.
 
@@ -194,12 +298,14 @@ Proof.
       apply nth_error_Some. congruence.
 Qed.
 
-(* shouldFire on a group's state = the predicate on the aggregates of the rows fed, whatever the binding *)
-Lemma gw_should_fire_canon : forall c seg, gw_should_fire c (gw_canon c seg) = gw_holds (gc_pred c) seg.
+(* shouldFire on a group's state = the predicate AS BOUND on the aggregates of the rows fed *)
+Lemma gw_should_fire_canon : forall c seg, gw_should_fire c (gw_canon c seg) = gw_holds (gw_eff_pred c) seg.
 Proof.
   intros c seg. unfold gw_should_fire, gw_holds.
-  rewrite (gw_ieval_rewrite (gc_pred c) 0 _ (fun a => gw_agg_of a seg)); auto.
-  intros i a Hi. simpl. rewrite gw_env_canon, Hi. reflexivity.
+  rewrite <- (gw_rewrite_subst (gc_pred c) (gw_eff_calls (gc_outs c) (gw_calls (gc_pred c)) (gc_bind c)) 0).
+  fold (gw_eff_pred c).
+  rewrite (gw_ieval_rewrite (gw_eff_pred c) 0 _ (fun a => gw_agg_of a seg)); auto.
+  intros i a Hi. simpl. rewrite gw_env_canon. rewrite gw_calls_eff_pred in Hi. rewrite Hi. reflexivity.
 Qed.
 
 Lemma gw_results_canon : forall c seg,
@@ -216,16 +322,18 @@ Definition gw_rel (c : gw_config) (st : gw_state) (s : gw_segs) : Prop :=
 Lemma gw_rel_nil : forall c, gw_rel c [] [].
 Proof. intros c k. reflexivity. Qed.
 
+(* one step of the window = one step of the reference semantics for the predicate as bound *)
 Lemma gw_step_refines : forall c st s r, gw_rel c st s ->
-  snd (gw_step c st r) = snd (gw_spec_step c s r) /\
-  gw_rel c (fst (gw_step c st r)) (fst (gw_spec_step c s r)).
+  snd (gw_step c st r) = snd (gw_spec_step (gw_eff c) s r) /\
+  gw_rel c (fst (gw_step c st r)) (fst (gw_spec_step (gw_eff c) s r)).
 Proof.
   intros c st s r R. unfold gw_step, gw_spec_step.
+  change (gc_pred (gw_eff c)) with (gw_eff_pred c).
   pose proof (R (gw_key r)) as Rk. unfold gw_group_state in Rk. rewrite Rk.
   rewrite gw_feed_canon. rewrite gw_should_fire_canon.
-  destruct (gw_holds (gc_pred c) (gw_seg_find (gw_key r) s ++ [r])) eqn:Hh; cbn [fst snd].
+  destruct (gw_holds (gw_eff_pred c) (gw_seg_find (gw_key r) s ++ [r])) eqn:Hh; cbn [fst snd].
   - split.
-    + unfold gw_result_of. rewrite gw_results_canon. reflexivity.
+    + unfold gw_result_of. change (gc_outs (gw_eff c)) with (gc_outs c). rewrite gw_results_canon. reflexivity.
     + intro k. unfold gw_group_state.
       destruct (gw_key_eqb (gw_key r) k) eqn:E.
       * apply gw_key_eqb_eq in E. subst k.
@@ -238,14 +346,25 @@ Proof.
     + rewrite gw_find_remove_other by exact E. rewrite gw_seg_find_put_other by exact E. apply R.
 Qed.
 
-Theorem gw_run_refines : forall c h st s, gw_rel c st s -> gw_run c st h = gw_spec_run c s h.
+Theorem gw_run_refines : forall c h st s, gw_rel c st s -> gw_run c st h = gw_spec_run (gw_eff c) s h.
 Proof.
   induction h as [|r t IH]; simpl; intros st s R; auto.
   destruct (gw_step_refines c st s r R) as [H1 H2]. rewrite H1. f_equal. apply IH. exact H2.
 Qed.
 
-Corollary gw_run0_spec : forall c h, gw_run0 c h = gw_spec_run c [] h.
+(* for EVERY binding: the window is the reference semantics of the predicate as bound *)
+Corollary gw_run0_spec_eff : forall c h, gw_run0 c h = gw_spec_run (gw_eff c) [] h.
 Proof. intros. apply gw_run_refines. apply gw_rel_nil. Qed.
+
+(* for every faithful binding: the window is the reference semantics of the predicate as written *)
+Corollary gw_run0_spec : forall c, gw_bind_ok c -> forall h, gw_run0 c h = gw_spec_run c [] h.
+Proof. intros c Hok h. rewrite gw_run0_spec_eff. rewrite (gw_eff_ok c Hok). reflexivity. Qed.
+
+(* for every binding: the window behaves as the window of the predicate as bound *)
+Corollary gw_run0_as_bound : forall c h, gw_run0 c h = gw_run0 (gw_eff c) h.
+Proof.
+  intros c h. rewrite gw_run0_spec_eff. rewrite (gw_run0_spec (gw_eff c) (gw_eff_bind_ok c)). reflexivity.
+Qed.
 
 (* ------------------------------------------------------------------ the reference semantics *)
 Fixpoint gw_spec_final (c : gw_config) (s : gw_segs) (h : list gw_row) : gw_segs :=
@@ -279,45 +398,49 @@ Qed.
 Definition gw_since0 (c : gw_config) (g : list N) (h : list gw_row) : list gw_row :=
   gw_since g (combine h (gw_run0 c h)) [].
 
-Lemma gw_since0_final : forall c g h, gw_since0 c g h = gw_seg_find g (gw_spec_final c [] h).
-Proof. intros. unfold gw_since0. rewrite gw_run0_spec, gw_seg_find_final. reflexivity. Qed.
+Lemma gw_since0_final : forall c, gw_bind_ok c ->
+  forall g h, gw_since0 c g h = gw_seg_find g (gw_spec_final c [] h).
+Proof. intros c Hok g h. unfold gw_since0. rewrite (gw_run0_spec c Hok), gw_seg_find_final. reflexivity. Qed.
+
+Lemma gw_since0_as_bound : forall c g h, gw_since0 (gw_eff c) g h = gw_since0 c g h.
+Proof. intros. unfold gw_since0. rewrite <- gw_run0_as_bound. reflexivity. Qed.
 
 (* the output at any row of any sequence *)
-Theorem gw_output_at : forall c h1 r h2,
+Theorem gw_output_at : forall c, gw_bind_ok c -> forall h1 r h2,
   nth_error (gw_run0 c (h1 ++ r :: h2)) (length h1) =
   Some (let seg := gw_since0 c (gw_key r) h1 ++ [r] in
         if gw_holds (gc_pred c) seg then Some (gw_result_of c (gw_key r) seg) else None).
 Proof.
-  intros c h1 r h2. rewrite gw_run0_spec, gw_spec_run_app.
+  intros c Hok h1 r h2. rewrite (gw_run0_spec c Hok), gw_spec_run_app.
   rewrite nth_error_app2 by (rewrite gw_spec_run_length; lia).
   rewrite gw_spec_run_length, Nat.sub_diag. simpl.
-  rewrite gw_since0_final. unfold gw_spec_step.
+  rewrite (gw_since0_final c Hok). unfold gw_spec_step.
   destruct (gw_holds (gc_pred c) (gw_seg_find (gw_key r) (gw_spec_final c [] h1) ++ [r])); reflexivity.
 Qed.
 
-Theorem gw_fires_iff : forall c h1 r h2,
+Theorem gw_fires_iff : forall c, gw_bind_ok c -> forall h1 r h2,
   (exists res, nth_error (gw_run0 c (h1 ++ r :: h2)) (length h1) = Some (Some res)) <->
   gw_holds (gc_pred c) (gw_since0 c (gw_key r) h1 ++ [r]) = true.
 Proof.
-  intros. rewrite gw_output_at. cbv zeta.
+  intros c Hok h1 r h2. rewrite (gw_output_at c Hok). cbv zeta.
   destruct (gw_holds (gc_pred c) (gw_since0 c (gw_key r) h1 ++ [r])); split; intro H; auto.
   - eexists. reflexivity.
   - destruct H as [res H]. discriminate.
   - discriminate.
 Qed.
 
-Theorem gw_result_exact : forall c h1 r h2 res,
+Theorem gw_result_exact : forall c, gw_bind_ok c -> forall h1 r h2 res,
   nth_error (gw_run0 c (h1 ++ r :: h2)) (length h1) = Some (Some res) ->
   res = (gw_key r, map (fun a => gw_agg_of a (gw_since0 c (gw_key r) h1 ++ [r])) (gc_outs c)).
 Proof.
-  intros c h1 r h2 res H. rewrite gw_output_at in H. cbv zeta in H.
+  intros c Hok h1 r h2 res H. rewrite (gw_output_at c Hok) in H. cbv zeta in H.
   destruct (gw_holds (gc_pred c) (gw_since0 c (gw_key r) h1 ++ [r])); inversion H. reflexivity.
 Qed.
 
-Theorem gw_no_result_while_false : forall c h1 r h2,
+Theorem gw_no_result_while_false : forall c, gw_bind_ok c -> forall h1 r h2,
   gw_holds (gc_pred c) (gw_since0 c (gw_key r) h1 ++ [r]) = false ->
   nth_error (gw_run0 c (h1 ++ r :: h2)) (length h1) = Some None.
-Proof. intros c h1 r h2 H. rewrite gw_output_at. cbv zeta. rewrite H. reflexivity. Qed.
+Proof. intros c Hok h1 r h2 H. rewrite (gw_output_at c Hok). cbv zeta. rewrite H. reflexivity. Qed.
 
 (* ------------------------------------------------------------------ isolation, restart *)
 Lemma gw_project_spec : forall c g h s s', gw_seg_find g s = gw_seg_find g s' ->
@@ -339,38 +462,38 @@ Qed.
 Theorem gw_group_isolation : forall c g h,
   gw_project g (combine h (gw_run0 c h)) = gw_run0 c (filter (gw_is_group g) h).
 Proof.
-  intros. rewrite !gw_run0_spec. apply gw_project_spec. reflexivity.
+  intros. rewrite !gw_run0_spec_eff. apply gw_project_spec. reflexivity.
 Qed.
 
-Lemma gw_run0_app : forall c h1 h2,
+Lemma gw_run0_app : forall c, gw_bind_ok c -> forall h1 h2,
   gw_run0 c (h1 ++ h2) = gw_run0 c h1 ++ gw_spec_run c (gw_spec_final c [] h1) h2.
-Proof. intros. rewrite !gw_run0_spec. apply gw_spec_run_app. Qed.
+Proof. intros c Hok h1 h2. rewrite !(gw_run0_spec c Hok). apply gw_spec_run_app. Qed.
 
 (* after a result the group starts again from empty: nothing is buffered for it, and its later
    outputs are those of a new window that receives only the group's later rows *)
-Theorem gw_restart_empty : forall c h1 r h2 res,
+Theorem gw_restart_empty : forall c, gw_bind_ok c -> forall h1 r h2 res,
   nth_error (gw_run0 c (h1 ++ r :: h2)) (length h1) = Some (Some res) ->
   gw_since0 c (gw_key r) (h1 ++ [r]) = [] /\
   gw_project (gw_key r) (combine h2 (skipn (S (length h1)) (gw_run0 c (h1 ++ r :: h2)))) =
   gw_run0 c (filter (gw_is_group (gw_key r)) h2).
 Proof.
-  intros c h1 r h2 res H.
+  intros c Hok h1 r h2 res H.
   assert (Hh : gw_holds (gc_pred c) (gw_since0 c (gw_key r) h1 ++ [r]) = true).
-  { apply (gw_fires_iff c h1 r h2). exists res. exact H. }
+  { apply (gw_fires_iff c Hok h1 r h2). exists res. exact H. }
   assert (Hf : gw_seg_find (gw_key r) (gw_spec_final c [] (h1 ++ [r])) = []).
-  { clear H. rewrite gw_since0_final in Hh.
+  { clear H. rewrite (gw_since0_final c Hok) in Hh.
     assert (Hfin : forall h s, gw_spec_final c s (h ++ [r]) = fst (gw_spec_step c (gw_spec_final c s h) r)).
     { induction h as [|x t IHh]; simpl; intros; auto. }
     rewrite Hfin. unfold gw_spec_step. rewrite Hh. simpl. apply gw_seg_find_put_same. }
   split.
-  - rewrite gw_since0_final. exact Hf.
+  - rewrite (gw_since0_final c Hok). exact Hf.
   - replace (h1 ++ r :: h2) with ((h1 ++ [r]) ++ h2) by (rewrite <- app_assoc; reflexivity).
-    rewrite gw_run0_app.
+    rewrite (gw_run0_app c Hok).
     replace (S (length h1)) with (length (gw_run0 c (h1 ++ [r])) + 0)%nat
-      by (rewrite gw_run0_spec, gw_spec_run_length, app_length; simpl; lia).
+      by (rewrite (gw_run0_spec c Hok), gw_spec_run_length, app_length; simpl; lia).
     rewrite skipn_app. rewrite skipn_all2 by lia. simpl.
     replace (length (gw_run0 c (h1 ++ [r])) + 0 - length (gw_run0 c (h1 ++ [r])))%nat with 0%nat by lia.
-    simpl. rewrite gw_run0_spec. apply gw_project_spec. rewrite Hf. reflexivity.
+    simpl. rewrite (gw_run0_spec c Hok). apply gw_project_spec. rewrite Hf. reflexivity.
 Qed.
 
 (* ------------------------------------------------------------------ SQL's three-valued reading *)
